@@ -479,6 +479,17 @@ def run(repo, res):
     lv = [C.loads_value(repo, d) for d in (b'\x05', b'\x92\x01\x02', b'\xc3')]
     res.check('C14-R6', 'loads decodes the bytes it is given', lv == [(5, None), ([1, 2], None), (True, None)], F, 0,
               'loads(05), loads(92 01 02), loads(c3) must give 5, [1, 2], True; got %s' % (lv,), sample='loads(bytes) = unpack(BytesIO(bytes))')
+    # spec-valid maps whose keys a Python dict cannot hold side by side, or at all
+    import struct as _struct
+    for label, data in (('map keys 1 and 1.0 (an integer and a double: distinct MessagePack values)', b'\x82\x01\xc0\xcb' + _struct.pack('>d', 1.0) + b'\xc0'),
+                        ('map keys 1 and true', b'\x82\x01\xc0\xc3\xc0'),
+                        ('a map used as a map key', b'\x81\x80\xc0'),
+                        ('an ext used as a map key', b'\x81\xd4\x05\x00\xc0')):
+        got, exc = C.loads_value(repo, data)
+        res.check('C14-R3', 'spec-valid encoding accepted: %s' % label.split(' (')[0], exc is None, F, 0,
+                  'the encoding %s (%s) is valid MessagePack, the decoder refuses it with %s: maps are decoded into Python dicts, which '
+                  'cannot hold keys that are equal as Python values (1 == 1.0 == True) or unhashable' % (data.hex(), label, exc),
+                  sample='%s decodes' % label)
     ok, detail, ncalls = C.state_restoration(repo)
     res.check('C14-R6', 'no call leaves a trace in the module state', ok, F, 0,
               'the codec is a pure function of its argument: module-level variables of umsgpack must be the same after a call as before it, '
